@@ -37,6 +37,8 @@ pub struct Sys<'a> {
     /// a Stellar asset contract used as gas / fee token
     pub asset: Address,
     pub asset_admin: Address,
+    /// the address administrative calls name as beneficiary / successor (default: pool[EXTRA_A])
+    pub named: Address,
 }
 
 pub fn build_sys<'a>() -> Sys<'a> {
@@ -67,6 +69,7 @@ pub fn build_sys<'a>() -> Sys<'a> {
         token,
         asset,
         asset_admin,
+        named: pool[EXTRA_A].clone(),
         env,
         pool,
         set,
